@@ -39,6 +39,7 @@ func main() {
 	overlay := fs.String("overlay", "", "virtual=real,... overlay files")
 	tags := fs.String("tags", "", "build tags")
 	maxDepth := fs.Int("maxdepth", 2000, "max call depth")
+	stopOnViol := fs.Bool("stoponviolation", false, "stop at the first violation")
 	fs.Parse(os.Args[2:])
 
 	ov := map[string][]byte{}
@@ -77,7 +78,7 @@ func main() {
 	for _, h := range strings.Split(*harness, ",") {
 		cfg := interp.Config{Harness: h, Setup: *setup, Workers: *workers, StepBudget: *budget, MaxPaths: *maxPaths,
 			WallLimit: *wall, Solver: *solver, SymbolicMapOrder: *mapOrder, MaxPreemptions: *preempt, MaxThreads: *threads,
-			Params: pm, Trace: *trace, MaxDepth: *maxDepth}
+			Params: pm, Trace: *trace, MaxDepth: *maxDepth, StopOnViolation: *stopOnViol}
 		res, err := interp.Explore(prog, cfg)
 		if err != nil {
 			fatal(err)
